@@ -26,7 +26,7 @@ func specMergeLess(h1 uint64, k1 string, c1 int, o1 uint32, h2 uint64, k2 string
 //@   ensures result0 == specItemLess(by.data[by.idx[i]].Keyhash, by.data[by.idx[i]].Key, by.data[by.idx[j]].Keyhash, by.data[by.idx[j]].Key)
 
 //@ func (h mergeHeap) Less
-//@   props C14
+//@   props C14 C13
 //@   ints bv
 //@   requires 0 <= i && i < len(h) && 0 <= j && j < len(h)
 //@   requires h[i] != nil && h[j] != nil && h[i].curr != nil && h[j].curr != nil
